@@ -12,7 +12,8 @@ ignored) and the outcome class (returned / raised <type>) must coincide.
 
 Parts
   corpus   every (before, after) pair of /repo/tests/annet/test_patch, api level with add_comments False and True, plus
-           the two workers on the pair's texts
+           the two workers on the pair's texts; all of it a second time with a copy of the shipped rulebook in which
+           every rule carries a %comment (no shipped rule has one, so add_comments is unobservable otherwise)
   cross    per corpus vendor: every distinct configuration of the vendor as old against every other as new
   forest   per hardware model and per rule of the compiled shipped rulebook that carries a non-default patch logic or
            diff logic: all label-annotated forests with <= N nodes over a small row universe synthesised from that rule
@@ -22,6 +23,7 @@ Parts
 from __future__ import annotations
 
 import collections
+import contextlib
 import copy
 import functools
 import itertools
@@ -38,8 +40,8 @@ from mc.ref import regexgen
 
 PID = "C16"
 ENGINE = "E1 bounded-exhaustive differential: file front end vs device front end on the same (hw, old, new)"
-RULE = ("corpus: one case per (sample, add_comments); cross: one case per ordered pair of distinct configurations of "
-        "one corpus vendor (configurations de-duplicated by content); forest: one case per (hardware model, custom-logic "
+RULE = ("corpus: one case per sample (re-run with add_comments on and with a comment-carrying rulebook); cross: one "
+        "case per ordered pair of distinct configurations of one corpus vendor (configurations de-duplicated by content); forest: one case per (hardware model, custom-logic "
         "rule, label-annotated forest) - forests are canonical (siblings in universe order, each row at most once per "
         "level), so cases are distinct by construction. Non-trivial = at least one front end emits a command AND old and "
         "new share a row at the same path (so there is something for strip_unchanged to remove).")
@@ -53,7 +55,7 @@ ASSUMPTIONS = [
     "annet's own rule compiler and matcher are used to *generate* inputs (locate custom-logic rules, validate that a "
     "synthesised row hits the intended rule); they play no part in the verdict",
 ]
-BUDGET = {"quick": 120, "thorough": 900}
+BUDGET = {"quick": 300, "thorough": 1500}   # measured: quick ~430 CPU-s, thorough ~3900 CPU-s (27 s / 4 min on 16 idle cores)
 
 CORPUS_ROOT = os.environ.get("VERIF_CORPUS_ROOT", "/repo")
 CORPUS_DIR = "annet/test_patch"
@@ -67,7 +69,8 @@ CROSS_PAIRS_PER_BLOCK = 1500
 
 
 def bound_text(tier):
-    s = "corpus: all (before,after) samples x add_comments in {0,1} + workers"
+    s = ("corpus: all (before,after) samples x add_comments in {0,1} x {shipped rulebook, same with %comment on every "
+         "rule}, api + workers")
     if tier == "thorough":
         s += "; cross: all ordered pairs of distinct configurations per corpus vendor"
     s += ("; forest: all label-annotated forests with <= %d nodes per custom-logic rule, hardware models: %s "
@@ -399,6 +402,43 @@ def classify(info, old_l, new_l):
 
 
 # ---------------------------------------------------------------------------------------------------
+# add_comments: no shipped rule carries %comment, so with the shipped texts the flag cannot change a single command.
+# For the corpus the flag is therefore also exercised with a copy of the shipped rulebook in which every rule carries a
+# comment, supplied through the module attribute annet.rulebook.get_rulebook (both front ends read it at call time).
+COMMENT_WORD = "!!C16!!"
+_commented = {}
+
+
+def _add_comments(rules):
+    for scope in ("local", "global"):
+        for rule in rules[scope].values():
+            if rule["type"] == "ignore":
+                continue
+            rule["attrs"]["comment"] = [COMMENT_WORD]
+            if rule.get("children"):
+                _add_comments(rule["children"])
+
+
+@contextlib.contextmanager
+def commented_rulebook():
+    from annet import rulebook
+    orig = rulebook.get_rulebook
+
+    def patched(hw):
+        if hw not in _commented:
+            rb = dict(orig(hw))
+            rb["patching"] = copy.deepcopy(rb["patching"])
+            _add_comments(rb["patching"])
+            _commented[hw] = rb
+        return _commented[hw]
+    rulebook.get_rulebook = patched
+    try:
+        yield
+    finally:
+        rulebook.get_rulebook = orig
+
+
+# ---------------------------------------------------------------------------------------------------
 # worker level
 class Scratch:
     def __init__(self):
@@ -410,7 +450,10 @@ class Scratch:
         self.td.cleanup()
 
 
-def workers(hw, old_text, new_text, add_comments, scratch, indent="  "):
+WORKER_INDENT = "   "        # not annet's default, so that a worker that ignores args.indent is seen
+
+
+def workers(hw, old_text, new_text, add_comments, scratch, indent=WORKER_INDENT):
     """-> (violations, outcome label).  File workers on two files vs the device front end on the parsed trees."""
     from annet import api, cli_args, tabparser
     from annet import patching
@@ -758,7 +801,7 @@ def report(ctx, sig, case, detail_fn):
     ctx.violation(sig, case, detail_fn() if seen[k] <= ctx.MAX_VIOL_PER_SIG else "")
 
 
-def one_case(ctx, hw, label, old_l, new_l, add_comments, part, count_state=True):
+def one_case(ctx, hw, label, old_l, new_l, add_comments, part, count_state=True, commented=False):
     viol, info = compare(hw, old_l, new_l, add_comments)
     ctx.evals += 2
     lab, nontrivial = classify(info, old_l, new_l)
@@ -768,8 +811,10 @@ def one_case(ctx, hw, label, old_l, new_l, add_comments, part, count_state=True)
         if nontrivial:
             ctx.nontrivial += 1
     for sig, detail_fn in viol:
-        report(ctx, sig, {"level": "api", "hw": label, "old": old_l, "new": new_l, "add_comments": add_comments},
-               detail_fn)
+        case = {"level": "api", "hw": label, "old": old_l, "new": new_l, "add_comments": add_comments}
+        if commented:
+            case["comment_rulebook"] = True
+        report(ctx, sig, case, detail_fn)
     return viol, info
 
 
@@ -781,25 +826,34 @@ def run_corpus(block, ctx, scratch):
             ctx.notes.append("sample %s not loadable: %s" % (s["name"], s["error"]))
             continue
         hw = hw_of(s["label"])
-        for add_comments in (False, True):
-            viol, info = one_case(ctx, hw, s["label"], s["old"], s["new"], add_comments, "corpus",
-                                  count_state=not add_comments)
-            if not add_comments and info["d"]["st"] == "ok" and len(ctx.samples) < 1:
-                ctx.sample({"part": "corpus", "sample": s["name"], "hw": hw.model,
-                            "commands": info["d"]["cmds"][:6], "diff_entries": len(info["d"]["diff"])})
-            ot, nt = s["old_text"], s["new_text"]
-            if ot is None:
-                try:
-                    ot, nt = _texts(hw, s["old"], s["new"])
-                except Exception:  # noqa
-                    continue
-            wv, wlab = workers(hw, ot, nt, add_comments, scratch)
-            ctx.evals += 4
-            ctx.outcomes["corpus:" + wlab] += 1
-            if not viol:          # a worker disagreement with the same root cause is already reported at api level
-                for sig, detail in wv:
-                    ctx.violation(sig, {"level": "worker", "hw": s["label"], "old_text": ot, "new_text": nt,
-                                        "add_comments": add_comments}, detail)
+        for add_comments, commented in ((False, False), (True, False), (True, True), (False, True)):
+            with (commented_rulebook() if commented else contextlib.nullcontext()):
+                corpus_case(ctx, scratch, s, hw, add_comments, commented)
+
+
+def corpus_case(ctx, scratch, s, hw, add_comments, commented):
+    part = "corpus+comment-rulebook" if commented else "corpus"
+    viol, info = one_case(ctx, hw, s["label"], s["old"], s["new"], add_comments, part,
+                          count_state=not add_comments and not commented, commented=commented)
+    if commented and info["d"]["st"] == "ok":
+        has = any(COMMENT_WORD in w for c in info["d"]["cmds"] for w in c)
+        ctx.outcomes["%s:device-commands-%s-comments" % (part, "with" if has else "without")] += 1
+    if not add_comments and not commented and info["d"]["st"] == "ok" and len(ctx.samples) < 1:
+        ctx.sample({"part": "corpus", "sample": s["name"], "hw": hw.model,
+                    "commands": info["d"]["cmds"][:6], "diff_entries": len(info["d"]["diff"])})
+    ot, nt = s["old_text"], s["new_text"]
+    if ot is None:
+        try:
+            ot, nt = _texts(hw, s["old"], s["new"])
+        except Exception:  # noqa
+            return
+    wv, wlab = workers(hw, ot, nt, add_comments, scratch)
+    ctx.evals += 4
+    ctx.outcomes[part + ":" + wlab] += 1
+    if not viol:          # a worker disagreement with the same root cause is already reported at api level
+        for sig, detail in wv:
+            ctx.violation(sig, {"level": "worker", "hw": s["label"], "old_text": ot, "new_text": nt,
+                                "add_comments": add_comments, "comment_rulebook": commented}, detail)
 
 
 def run_cross(block, ctx):
@@ -883,6 +937,11 @@ def finish(merged, tier):
 
 # ---------------------------------------------------------------------------------------------------
 def replay(case):
+    with (commented_rulebook() if case.get("comment_rulebook") else contextlib.nullcontext()):
+        return _replay(case)
+
+
+def _replay(case):
     hw = hw_of(case["hw"])
     if case.get("level") == "worker":
         scratch = Scratch()
